@@ -44,7 +44,7 @@ P('C08',
              'characters foreground, underline, italics and flash; empty cells must be transparent, except for the solid space the standard asks for next to a character; a page that differs from the '
              'previous fetch must have been announced by a caption event of that channel. Sampling only.',
   level_note='Trusted: models/cc608_model.h as reading of 47 CFR 15.119 / EIA-608-B (per-cell attributes as in effect when written; attributes of spaces other than background and opacity are not compared; the '
-             'meaning of BS / DER / tab offsets after a character was written in column 32, RU4 on a base row that cannot hold it, control codes addressed to another channel than the one opened by the last '
+             'meaning of BS / DER / tab offsets after a character was written in column 32, control codes addressed to another channel than the one opened by the last '
              'mode command, extended characters and parity errors are outside the generated domain). Field 2 control codes are sent once, as the property says.',
   design_ref='DESIGN.md section 2, C08',
   quick=dict(cases=150000, max_size=3000, max_seconds=120),
